@@ -28,12 +28,13 @@ LIB = os.path.join(os.path.dirname(os.path.abspath(chi.__file__)), 'library', 'm
 REG = dict(dose=2.0, start=0.25, duration=0.25, period=0.5, num=2)
 
 
-def mech_model(nout, regimen, tag):
+def mech_model(nout, regimen, tag, set_reg=True):
     if regimen:
         m = chi.PKPDModel(os.path.join(LIB, 'pk_one_comp.xml'))
         m.set_administration('central', direct=True)
         m.set_outputs(['central.drug_amount', 'central.drug_concentration'][:nout])
-        m.set_dosing_regimen(**REG)
+        if set_reg:
+            m.set_dosing_regimen(**REG)
         return m, 3
     return probes.ProbeMech(2, nout, tag=tag), 2
 
@@ -42,15 +43,16 @@ def error_models(nout):
     return [chi.GaussianErrorModel(), chi.LogNormalErrorModel(), chi.MultiplicativeGaussianErrorModel()][:nout]
 
 
-def coded_posterior(names, ids, nch=2, ndr=3):
+def coded_posterior(names, ids, nch=2, ndr=3, store_as=None):
     data = {}
+    store_as = store_as or {}
     for k, n in enumerate(names):
         arr = np.zeros((nch, ndr, len(ids)))
         for c in range(nch):
             for d in range(ndr):
                 for i in range(len(ids)):
                     arr[c, d, i] = 1000 * (k + 1) + 100 * (c + 1) + 10 * (d + 1) + (i + 1)
-        data[n] = (('chain', 'draw', 'individual'), arr)
+        data[store_as.get(n, n)] = (('chain', 'draw', 'individual'), arr)
     return xr.Dataset(data, coords={'chain': list(range(nch)), 'draw': list(range(ndr)), 'individual': list(ids)})
 
 
@@ -135,26 +137,53 @@ def replay_case(arg):
                 who = 'a'
             else:
                 ids = ['a', 'b', 'c']
-                post = coded_posterior(names, ids)
-                ppm = chi.PosteriorPredictiveModel(pm, post)
+                # every other case: the dataset stores the mechanistic parameters under each other's names (a cyclic shift) and
+                # param_map states so -- the map is a FUNCTION from model names to dataset names, applied once to each name
+                pmap_ = None
+                if (int(key, 16) // 3) % 2 == 0 and nm >= 2:
+                    mn = list(names[:nm])
+                    pmap_ = dict(zip(mn, mn[1:] + mn[:1]))
+                    feats.append('param_map_permutes_names')
+                    cnt['feat_param_map_permutes_names'] = 1
+                post = coded_posterior(names, ids, store_as=pmap_)
+                ppm = chi.PosteriorPredictiveModel(pm, post, param_map=pmap_)
                 who = ids[int(rng.integers(3))]
                 if kind == 'posterior':
                     df = ppm.sample(times_in, n_samples=ns, individual=who, seed=int(rng.integers(100)),
                                     include_regimen=rec['regimen'])
                 else:
                     # two member models, or three (every other case): the blocks of sample IDs follow one another
-                    members = [ppm, chi.PosteriorPredictiveModel(pm, post)]
+                    members = [ppm, chi.PosteriorPredictiveModel(pm, post, param_map=pmap_)]
                     if int(key, 16) % 2:
-                        members.append(chi.PosteriorPredictiveModel(pm, post))
+                        members.append(chi.PosteriorPredictiveModel(pm, post, param_map=pmap_))
                         feats.append('three_member_models')
                         cnt['feat_three_member_models'] = 1
+                    via_pam = bool(rec['regimen']) and (int(key, 16) // 5) % 2 == 0
+                    if via_pam:
+                        # the member models wrap DISTINCT predictive models without a regimen; the regimen is set through the
+                        # averaged model and must reach every member (every simulated individual is dosed)
+                        members = [chi.PosteriorPredictiveModel(
+                            chi.PredictiveModel(mech_model(nout, True, tag, set_reg=False)[0], error_models(nout)), post,
+                            param_map=pmap_) for _ in members]
+                        feats.append('regimen_set_through_the_averaged_model')
+                        cnt['feat_regimen_set_through_the_averaged_model'] = 1
                     pam = chi.PAMPredictiveModel(members, weights=[2, 1, 1][:len(members)])
+                    if via_pam:
+                        pam.set_dosing_regimen(**REG)
+                    refsim.clear_events()
                     df = pam.sample(times_in, n_samples=ns, individual=who, seed=int(rng.integers(100)),
                                     include_regimen=rec['regimen'])
     except Exception as e:
         fail('Evaluable', type(e).__name__, repr(e))
         return fails, cnt
     cnt['evaluations'] = 1
+    if kind == 'pam' and rec['regimen']:
+        # what every simulated individual received: the protocol the solver ran with
+        want = sorted(refsim.protocol_events(mech_model(nout, True, tag)[0].dosing_regimen()))
+        runs = [sorted(e['protocol']) for e in refsim.EVENTS if e['e'] == 'Run']
+        if len(runs) != ns or any(r_ != want for r_ in runs):
+            fail('DoseRows', 'regimen_not_applied_to_every_sample', dict(n_runs=len(runs), expected_runs=ns,
+                                                                       undosed=sum(1 for r_ in runs if r_ != want)))
     if list(times_in) != times:
         fail('NoInputWrite', 'times_modified', dict(passed_as=type(times_in).__name__, now=list(times_in), before=times))
     # ---- labels ---------------------------------------------------------------------------
